@@ -136,6 +136,29 @@ theorem absUpperNew_eq_old (lo hi : Int) (n : Nat) (h : absUpperOld? lo hi = som
   unfold absUpperNew
   omega
 
+/-- `unsigned_abs` needs no overflow check: on `i64` bounds the result always fits the unsigned type (`≤ 2⁶³`), `i64::MIN` included -/
+theorem absUpperNew_fits (lo hi : Int) (h1 : minI ≤ lo) (h2 : lo ≤ maxI) (h3 : minI ≤ hi) (h4 : hi ≤ maxI) :
+    (absUpperNew lo hi : Int) ≤ 9223372036854775808 := by
+  unfold absUpperNew minI maxI at *; omega
+
+/-- the saturating operations never leave `i64` (so nothing downstream can overflow on their results) … -/
+theorem sat_ops_in_range (x y : Int) :
+    (minI ≤ satAdd x y ∧ satAdd x y ≤ maxI) ∧ (minI ≤ satSub x y ∧ satSub x y ≤ maxI) ∧ (minI ≤ satMul x y ∧ satMul x y ≤ maxI) :=
+  ⟨clampI_range _, clampI_range _, clampI_range _⟩
+
+/-- … nor does the saturating division where it is defined (`MIN / -1` saturates instead of overflowing) -/
+theorem satDiv_range (x y v : Int) (h : satDiv? x y = some v) : minI ≤ v ∧ v ≤ maxI := by
+  unfold satDiv? at h
+  split at h
+  · simp at h
+  · simp only [Option.some.injEq] at h; subst h; exact clampI_range _
+
+theorem satDiv_min_neg_one : satDiv? minI (-1) = some maxI := by decide
+
+/-- saturating multiplication is monotone on non-negative operands (what the corner evaluation on the piece `[0, +∞)²` relies on) -/
+theorem satMul_mono_nonneg {a b c d : Int} (ha : 0 ≤ a) (hc : 0 ≤ c) (h1 : a ≤ b) (h2 : c ≤ d) : satMul a c ≤ satMul b d :=
+  clampI_mono (Int.mul_le_mul h1 h2 hc (Int.le_trans ha h1))
+
 /-- `Map::size`: with non-negative input size, OFFSET and LIMIT, the interval `[0, hi]` handed to `Integer::from_interval` is well formed,
 whatever the OFFSET (in particular beyond the input size) -/
 theorem map_size_interval_ordered (inputMax : Int) (offset limit : Option Int) (hm : 0 ≤ inputMax)
